@@ -220,6 +220,26 @@ impl Check for NormCheck {
         }
         let mut rng = Rng::for_case(seed, "norm", case);
         let o = lib_opts(tier, &mut rng);
+        if self.prop == "C02" && case % 6 == 5 && case < random_cases(tier) {
+            // fixpoint over hostile shapes (unusual-but-legal containers: items that start with lists, quotes or rules,
+            // empty items and quotes, headings in items ...): no content oracle applies to them, but "formatting twice equals
+            // formatting once" does
+            let mut srng = Rng::for_case(seed, "norm-shapes", case);
+            let mut texts = BTreeMap::new();
+            texts.insert("n1".to_string(), crate::checks::crash03::shapes(&mut srng, 4));
+            texts.insert("n2".to_string(), "# Title Two\n".to_string());
+            rep.count("hostile_shape_documents", 1);
+            if let Ok((a, b)) = mon::catch(|| {
+                let a = export_lib(&texts, "");
+                let b = export_lib(&a, "");
+                (a, b)
+            }) {
+                if a != b {
+                    let l = first_diff_line(&a["n1"], &b["n1"]);
+                    rep.violate("not-fixpoint", "shapes", format!("hostile shapes: line {}: pass 1 {:?} pass 2 {:?}", l.0, l.1, l.2), json!({"library": texts}));
+                }
+            }
+        }
         let pinned = if case >= random_cases(tier) {
             Some(PINNED[(case - random_cases(tier)) as usize])
         } else {
